@@ -33,7 +33,7 @@ type sweepRes struct {
 }
 
 func watchableSweep(r *vkit.Report) {
-	perVariant := map[string]int{"VVS": r.Scale(30, 60), "VVS-unset": r.Scale(6, 20), "VSS": r.Scale(6, 20)}
+	perVariant := map[string]int{"VVS": scale4(r, 15, 30, 50, 60), "VVS-unset": scale4(r, 4, 6, 20, 20), "VSS": scale4(r, 4, 6, 20, 20)}
 	order := []string{"VVS", "VVS-unset", "VSS"}
 	if runtime.GOMAXPROCS(0) < 4 {
 		// without three processors the parties cannot be released together: a short run only
